@@ -200,7 +200,7 @@ def check_record(row, pre, logdir):
         if not lg:
             return [("log", "lga", None)]
         lg = lg[0]
-        want("log.file", rec["to"][0] if "to" in rec else "", lg["file"])         # docstring: default is the log's name
+        want("log.file", rec["to"][0] if "to" in rec else "lga", lg["file"])      # docstring: default is the log's name
         want("log.kind", rec["as"][0] if "as" in rec else "text", lg["kind"])
         want("log.rule", rec["on"][0].capitalize() if "on" in rec else "Never", lg["rule"])
     elif verb == "server":
